@@ -19,7 +19,6 @@ from ..pm import AnalysisError, dotted, unparse, walk_no_nested
 from ..report import Ctx
 
 ROW_WORDS = ("\\trowd", "\\cellx", "\\cell", "\\row", "\\intbl")
-ROW_EMITTERS = {"Row._as_rtf", "Cell._as_rtf", "TextContent._as_rtf"}
 
 
 def r01_1(ctx: Ctx, it) -> dict:
@@ -74,15 +73,20 @@ def r01_2(ctx: Ctx, it) -> None:
     pm = ctx.pm
     # (a) the row emitter pairs boundaries and contents
     fi = pm.func("Row._as_rtf")
-    r = call(it, pm, "Row._as_rtf", VObj("Row", {}))
-    sh = as_shape(it, r)
+    it_row = make_interp(pm)          # fresh interpreter: its calls_seen = the functions the pairing argument covers
+    r = call(it_row, pm, "Row._as_rtf", VObj("Row", {}))
+    covered = set(it_row.calls_seen)
+    sh = as_shape(it_row, r)
     cx, ce = S.count(sh, "\\cellx"), S.count(sh, "\\cell")
     tr, rw = S.count(sh, "\\trowd"), S.count(sh, "\\row")
     ctx.instance("R01.2", fi.where(), f"Row._as_rtf: \\cellx={_poly(cx)} \\cell={_poly(ce)} \\trowd={_poly(tr)} \\row={_poly(rw)}")
-    if cx != ce or len(cx) != 1:
+    unk = S.has_unk(sh)
+    if unk:
+        ctx.gap("R01.2", f"Row._as_rtf: the row could not be given a shape ({unk[0]}); \\cellx/\\cell pairing undecided")
+    elif cx != ce or len(cx) != 1:
         ctx.violation("R01.2", "Row._as_rtf", f"cellx={_poly(cx)} cell={_poly(ce)}", fi.where(),
                       f"row emitter: number of \\cellx boundaries {_poly(cx)} differs from number of \\cell contents {_poly(ce)}")
-    if tr != rw or tr != {frozenset({("1", 1)})}:
+    if not unk and (tr != rw or tr != {frozenset({("1", 1)})}):
         ctx.violation("R01.2", "Row._as_rtf", f"trowd={_poly(tr)} row={_poly(rw)}", fi.where(),
                       "row emitter: not exactly one \\trowd and one \\row per row")
     # (b) table encoders produce rows only through Row._as_rtf and keep the pairing
@@ -98,15 +102,16 @@ def r01_2(ctx: Ctx, it) -> None:
         cx, ce = S.count(sh2, "\\cellx"), S.count(sh2, "\\cell")
         tr, rw = S.count(sh2, "\\trowd"), S.count(sh2, "\\row")
         ctx.instance("R01.2", f2.where(), f"{short}: \\cellx={_poly(cx)} \\cell={_poly(ce)} rows={_poly(rw)}")
+        unk2 = S.has_unk(sh2)
+        if unk2:
+            ctx.gap("R01.2", f"{short}: {unk2[0]}")
+            continue
         if cx != ce:
             ctx.violation("R01.2", short, f"cellx={_poly(cx)} cell={_poly(ce)}", f2.where(),
                           f"{short}: \\cellx count {_poly(cx)} != \\cell count {_poly(ce)}")
         if tr != rw:
             ctx.violation("R01.2", short, f"trowd={_poly(tr)} row={_poly(rw)}", f2.where(),
                           f"{short}: \\trowd count {_poly(tr)} != \\row count {_poly(rw)}")
-        unk = S.has_unk(sh2)
-        if unk:
-            ctx.gap("R01.2", f"{short}: {unk[0]}")
     # (c) who may emit row words: string literals containing them exist only in the row emitters
     n = 0
     for fi2 in pm.iter_funcs():
@@ -120,7 +125,7 @@ def r01_2(ctx: Ctx, it) -> None:
                 n += 1
                 owner = fi2.short.split(".<locals>")[0]
                 ctx.instance("R01.2", fi2.where(node), f"{fi2.short}: literal with {words}", nontrivial=False)
-                if owner not in ROW_EMITTERS:
+                if owner not in covered:
                     ctx.violation("R01.2", fi2.short, "row word literal " + ",".join(words), fi2.where(node),
                                   f"{fi2.short} writes table-row control words {words} outside the row emitter; "
                                   "the \\cellx/\\cell pairing argument does not cover it")
@@ -169,49 +174,75 @@ def elem_types(ann: str) -> set[str]:
     return out
 
 
+ATTR_CLASSES = ("TableAttributes", "TextAttributes")
+
+
+def source_attribute(pm, fi, value: ast.AST) -> str | None:
+    """the user-facing attribute (a declared field of TableAttributes / TextAttributes) a constructor argument is
+    read from: named by a constant string argument of a getter call (`get("text_font_size", i)`) or read as
+    `x.text_font_size` somewhere in the expression (temporaries resolved).  None if not exactly one."""
+    from ..astmatch import resolve
+    e = resolve(value, fi.node)
+    found = []
+    for x in ast.walk(e):
+        name = None
+        if isinstance(x, ast.Call):
+            for a in list(x.args) + [k.value for k in x.keywords]:
+                if isinstance(a, ast.Constant) and isinstance(a.value, str):
+                    name = a.value
+                    if any(pm.field_decl(c, name) is not None for c in ATTR_CLASSES) and name not in found:
+                        found.append(name)
+        elif isinstance(x, ast.Attribute) and isinstance(x.ctx, ast.Load):
+            name = x.attr
+            if any(pm.field_decl(c, name) is not None for c in ATTR_CLASSES) and name not in found:
+                found.append(name)
+    return found[0] if len(found) == 1 else None
+
+
 def r01_4(ctx: Ctx) -> None:
+    from ..astmatch import resolve
+    from ..consteval import expand_keywords
     pm = ctx.pm
     models = ("TextContent", "Cell", "Row", "Border")
-    n = 0
     for fi in pm.iter_funcs():
         for c in walk_no_nested(fi.node):
             if not (isinstance(c, ast.Call) and dotted(c.func).split(".")[-1] in models):
                 continue
             model = dotted(c.func).split(".")[-1]
-            for k in c.keywords:
-                if k.arg is None or not isinstance(k.value, ast.Call):
+            pairs, complete = expand_keywords(pm, fi, c)
+            if not complete:
+                ctx.gap("R01.4", f"{fi.short}: {model}(…, **mapping) at {fi.where(c)}: the mapping could not be expanded into "
+                                 "field/attribute pairs")
+            for field, value in pairs:
+                attr = source_attribute(pm, fi, value)
+                if attr is None:
                     continue
-                g = k.value
-                gname = dotted(g.func).split(".")[-1]
-                if gname not in ("get_broadcast_value", "get_attr") or not g.args or \
-                        not (isinstance(g.args[0], ast.Constant) and isinstance(g.args[0].value, str)):
-                    continue
-                attr = g.args[0].value
                 src_cls = "TableAttributes" if pm.field_decl("TableAttributes", attr) is not None else "TextAttributes"
                 ann = pm.field_ann(src_cls, attr)
-                fann = pm.field_ann(model, k.arg)
+                fann = pm.field_ann(model, field)
                 if ann is None or fann is None:
                     continue
-                n += 1
                 et = elem_types(ann)
                 ft = set(split_union(fann.replace(" ", ""))) - {"None"}
-                ctx.instance("R01.4", fi.where(c), f"{fi.short}: {model}.{k.arg}:{fann} <- {attr}:{sorted(et)}")
+                ctx.instance("R01.4", fi.where(c), f"{fi.short}: {model}.{field}:{fann} <- {attr}:{sorted(et)}")
                 if "float" in et and "float" not in ft and "int" in ft:
-                    ctx.violation("R01.4", f"{model}.{k.arg}", f"{attr}: float -> int", fi.where(c),
+                    ctx.violation("R01.4", f"{model}.{field}", f"{attr}: float -> int", fi.where(c),
                                   f"{fi.short}: attribute {attr} admits float elements ({ann}) but is passed to "
-                                  f"{model}.{k.arg}: {fann}; a fractional value (e.g. a half-point size) is accepted "
+                                  f"{model}.{field}: {fann}; a fractional value (e.g. a half-point size) is accepted "
                                   "at construction and raises ValidationError at encode time")
     ctx.floor("R01.4", 30)
     # integer results of '-> int' helpers used in parameter positions
     fi = pm.func("RTFMeasurements.inch_to_twip")
     rets = [r for r in ast.walk(fi.node) if isinstance(r, ast.Return) and r.value is not None]
     for r in rets:
-        ok = isinstance(r.value, ast.Call) and dotted(r.value.func) in ("round", "int") and len(r.value.args) == 1
-        ctx.instance("R01.4", fi.where(r), f"inch_to_twip returns {unparse(r.value)}")
+        v = resolve(r.value, fi.node)
+        ok = isinstance(v, ast.Call) and dotted(v.func) in ("round", "int", "math.floor", "math.ceil", "floor", "ceil") and len(v.args) == 1 \
+            and not v.keywords
+        ctx.instance("R01.4", fi.where(r), f"inch_to_twip returns {unparse(v)}")
         if not ok:
             ctx.violation("R01.4", fi.short, unparse(r.value), fi.where(r),
                           "inch_to_twip must return an integer (round(x)/int(x) with one argument); "
-                          f"found {unparse(r.value)}")
+                          f"found {unparse(v)}")
 
 
 NONE_INTOLERANT_METHODS = {"extend", "join"}
@@ -400,6 +431,10 @@ def check(ctx: Ctx) -> None:
         weak = next((w for w in (_weak_positive(v) for v in vs) if w), None)
         ctx.violation("R01.9", "TableAttributes.col_rel_width", "positivity " + (weak or "missing"), vs[0].where() if vs else pm.cls("TableAttributes").path + ":0",
                       "col_rel_width is not validated as strictly positive" + (f" (guard `{weak}`)" if weak else "") + ": a zero width is accepted and rtf_encode divides by zero or emits \\cellx0")
+    dropped = sorted({f"{b}: {c}" for a, b, c in it.gaps if a == "stmt"})
+    if dropped:
+        ctx.gap("R01.1", f"the shape interpreter met statement kinds outside its subset on an output path ({dropped[0][:120]}); "
+                         "their effect on the document is not modelled")
     ctx.extra["functions_interpreted"] = len(it.calls_seen)
     ctx.extra["interpreter_gaps"] = sorted({f"{a}:{b}" for a, b, _ in it.gaps})[:20]
     if len(it.calls_seen) < 38:
